@@ -44,15 +44,9 @@ func Matches(pass *analysis.Pass, qs ...pattern.Pattern) iter.Seq2[ast.Node, *pa
 				continue
 			}
 
-			if len(q.RootCallSymbols) != 0 {
+			if objs, ok := rootCallees(pass, q); ok {
 				index := pass.ResultOf[typeindexanalyzer.Analyzer].(*typeindex.Index)
-				for _, isym := range q.RootCallSymbols {
-					var obj types.Object
-					if isym.Type == "" {
-						obj = index.Object(isym.Path, isym.Ident)
-					} else {
-						obj = index.Selection(isym.Path, isym.Type, isym.Ident)
-					}
+				for _, obj := range objs {
 					for c := range index.Calls(obj) {
 						node := c.Node()
 						if m, ok := Match(pass, q, node); ok {
@@ -78,6 +72,36 @@ func Matches(pass *analysis.Pass, qs ...pattern.Pattern) iter.Seq2[ast.Node, *pa
 			}
 		}
 	}
+}
+
+// rootCallees resolves the pattern's root call symbols to the objects whose
+// call sites are the only candidate nodes. It reports false if the candidates
+// cannot be enumerated through the index's call sites: the pattern has no
+// root call symbols, or one of them names a universe object (builtins aren't
+// found through a package path) or a type (conversions aren't calls as far as
+// the index is concerned, and Symbol also matches types through aliases).
+func rootCallees(pass *analysis.Pass, q pattern.Pattern) ([]types.Object, bool) {
+	if len(q.RootCallSymbols) == 0 {
+		return nil, false
+	}
+	index := pass.ResultOf[typeindexanalyzer.Analyzer].(*typeindex.Index)
+	objs := make([]types.Object, 0, len(q.RootCallSymbols))
+	for _, isym := range q.RootCallSymbols {
+		if isym.Path == "" {
+			return nil, false
+		}
+		var obj types.Object
+		if isym.Type == "" {
+			obj = index.Object(isym.Path, isym.Ident)
+		} else {
+			obj = index.Selection(isym.Path, isym.Type, isym.Ident)
+		}
+		if _, ok := obj.(*types.TypeName); ok {
+			return nil, false
+		}
+		objs = append(objs, obj)
+	}
+	return objs, true
 }
 
 func Match(pass *analysis.Pass, q pattern.Pattern, node ast.Node) (*pattern.Matcher, bool) {
@@ -106,6 +130,10 @@ func CouldMatchAny(pass *analysis.Pass, qs ...pattern.Pattern) bool {
 			}
 			return true
 		case pattern.IndexSymbol:
+			if node.Path == "" {
+				// Universe objects (builtins) are visible in every package.
+				return true
+			}
 			if node.Type == "" {
 				return index.Object(node.Path, node.Ident) != nil
 			} else {
